@@ -962,6 +962,21 @@ PROPS["C17"] = {
         "Lace.C17.label_resolves",
         "Lace.C17.label_out_of_range",
         "Lace.C17.unknown_label",
+        "Lace.C01.parseHead_te",
+        "Lace.C01.parse_items_spans",
+        "Lace.C01.parse_tokens_spans",
+        "Lace.C01.preprocess_textRel_spans",
+        "Lace.C01.textRel_render",
+        "Lace.C01.itemsSpansOf_ESpans",
+        "Lace.C01.slice_itemsStmtSpans",
+        "Lace.C17.spans_render",
+        "Lace.C17.span_text_eq_statement_render",
+        "Lace.C17.span_text_eq_statement_index",
+        "Lace.C17.spans_length_render",
+        "Lace.C17.stmtText_render",
+        "Lace.C17.assembly_shows_statement_text",
+        "Lace.C17.span_text_eq_statement_wf",
+        "Lace.C17.span_text_eq_statement_text_holds",
     ],
     "compare": cmp_default,
     "classify": src_classify,
